@@ -128,15 +128,18 @@ fn round_trip<T: Serialize + DeserializeOwned + PartialEq + Debug>(rep: &mut Rep
         }
     };
     let back = catch(|| from_bytes::<T>(text.as_bytes()));
+    // known finding C09-F1, by defect model: the format writes Some(""), None, [""] and [] all as an empty section, and what is read
+    // back is the "smaller" value. Exactly that - and nothing else that happens to involve an empty string - is attributed to it.
+    let model = format!("{v:?}").replace("Some(\"\")", "None").replace("[\"\"]", "[]");
     let ambiguous = vclass.contains("empty-string-in-option-or-seq");
     match back {
         Ok(Ok(w)) if eq(v, &w) => rep.count("round_trip_equal"),
         Ok(Ok(w)) => {
-            let sig = if ambiguous { "C09/empty-string-ambiguity".to_string() } else { format!("C09/round-trip-differs:{ty}") };
+            let sig = if ambiguous && format!("{w:?}") == model { "C09/empty-string-ambiguity".to_string() } else { format!("C09/round-trip-differs:{ty}") };
             rep.violation(&sig, &format!("{ty}: {v:?} -> {text:?} -> {w:?}"), json!({"case_index": case, "type": ty, "value": format!("{v:?}"), "text": text, "decoded": format!("{w:?}")}));
         }
         Ok(Err(e)) => {
-            let sig = if ambiguous { "C09/empty-string-ambiguity".to_string() } else { format!("C09/round-trip-rejected:{ty}") };
+            let sig = format!("C09/round-trip-rejected:{ty}");
             rep.violation(&sig, &format!("{ty}: {v:?} -> {text:?} -> Err({e})"), json!({"case_index": case, "type": ty, "value": format!("{v:?}"), "text": text, "error": e.to_string()}));
         }
         Err(p) => rep.violation(&format!("C09/de-panic@{}", crate::report::panic_site(&p)), &format!("from_bytes({ty}) panicked on its own output {text:?}: {p}"), json!({"case_index": case, "type": ty, "text": text})),
@@ -174,7 +177,7 @@ fn rt_case(rep: &mut Report, case: u64, rng: &mut Rng) {
     round_trip(rep, case, "Meters", "newtype", &F { x: Meters(gen_int!(rng, u32)) }, &peq);
     let n = rng.below(4);
     let vs: Vec<String> = (0..n).map(|_| gen_string(rng)).collect();
-    let vclass = if vs.iter().any(|s| s.is_empty()) { "empty-string-in-option-or-seq".to_string() } else { format!("len{n}") };
+    let vclass = if vs.len() == 1 && vs[0].is_empty() { "empty-string-in-option-or-seq".to_string() } else if vs.iter().any(|s| s.is_empty()) { format!("len{n}-with-empty-elements") } else { format!("len{n}") };
     round_trip(rep, case, "Vec<String>", &vclass, &F { x: vs.clone() }, &peq);
     let vi: Vec<u32> = (0..rng.below(4)).map(|_| gen_int!(rng, u32)).collect();
     round_trip(rep, case, "Vec<u32>", &format!("len{}", vi.len()), &F { x: vi }, &peq);
@@ -301,6 +304,10 @@ pub fn run(args: &Args, rep: &mut Report) {
         round_trip(rep, u64::MAX, "char", "witness", &F { x: '&' }, &peq);
         round_trip(rep, u64::MAX, "Vec<String>", "witness", &F { x: vec!["x".to_string(), "y".to_string()] }, &peq);
         round_trip(rep, u64::MAX, "Option<String>", "empty-string-in-option-or-seq", &F { x: Some(String::new()) }, &peq);
+        round_trip(rep, u64::MAX, "Vec<String>", "witness", &F { x: vec![String::new(), "a".to_string()] }, &peq);
+        round_trip(rep, u64::MAX, "Vec<String>", "witness", &F { x: vec!["a".to_string(), String::new()] }, &peq);
+        round_trip(rep, u64::MAX, "Vec<String>", "witness", &F { x: vec![String::new(), String::new(), "a".to_string(), String::new()] }, &peq);
+        round_trip(rep, u64::MAX, "(String,String)", "witness", &F { x: (String::new(), "a".to_string()) }, &peq);
     }
     let mut case = args.shard;
     while case < args.budget {
